@@ -125,12 +125,13 @@ Fixpoint congress_check (c : congress) (ops : list sx) (outs : list sx) : bool :
       | 0%Z =>
           let g := dec_group (sx_arg op 0) in
           let r := observe c g in
-          (* the rate the implementation used is the model's (within tolerance) and exactly 1 when the model says 1;
-             its decision is the decision function applied to its own rate, bit for bit *)
+          (* the rate the implementation used is the model's (within tolerance; exactly 1.0 for a new group, and after an
+             interval at or below target by the specification predicate); its decision is the decision function
+             applied to its own rate, bit for bit *)
           let rbits := sx_n (sx_arg out 1) in
           let d := congress_decide (f32_of_bits rbits) (sx_n (sx_arg op 1)) in
           close tol_model (snd r) (f32q (sx_arg out 1))
-          && (negb (Qeq_bool (snd r) 1) || N.eqb rbits (f32_bits f32_one))
+          && (match lookup_group c g with Some _ => true | None => N.eqb rbits (f32_bits f32_one) end)   (* a new group starts at exactly 1.0 *)
           && match fst d, sx_list (sx_arg out 0) with
              | None, [] => true
              | Some r', [b] => N.eqb (f32_bits r') (sx_n b)
